@@ -72,10 +72,12 @@ CLASSES = {"type", "null-allowed", "valid"}
 def run(ctx):
     ctx.proof_step(PROPS_FILE)
     n = 30 if ctx.tier == "quick" else 400
-    sysm = systematic()
+    from vlib.pairwise import pairwise
+    sysm = systematic() + [r for _, r in pairwise(only={"format", "enum", "default"})]
     cases = build_cases(ctx, len(sysm) + n, None, CLASSES | {"null-not-allowed"}, "c03x", extra_schemas=sysm, docs_per=2 if ctx.tier == "quick" else 3)
     # the integer positions again under --min-sized-ints (another Go type for the same schema)
-    sysi = [r for r in sysm if "integer" in json.dumps(r)]
+    from vlib.pairwise import sized_enum
+    sysi = [r for r in sysm if "integer" in json.dumps(r) and not sized_enum(r)]
     cases += build_cases(ctx, len(sysi), None, CLASSES | {"null-not-allowed"}, "c03m", extra_schemas=sysi, docs_per=2, minsized=True, fam="min-sized")
     run_cases(ctx, cases, "c03")
     evaluate(ctx, cases, CLASSES, {"type": "invalid", "null-allowed": "valid", "valid": "valid"}, "JSON types")
